@@ -4,6 +4,7 @@ import (
 	"fmt"
 	"os"
 	"strconv"
+	"strings"
 	"testing"
 
 	"verif/sim"
@@ -18,12 +19,28 @@ func TestDebug(t *testing.T) {
 	debugHook = func(w *World) {
 		for _, n := range w.nodes {
 			fmt.Printf("node %d tip h=%d id=%s best=%d\n", n.idx, n.tip.Index.Height, short(n.tip.Index.ID), len(n.best))
-			if len(n.best) > 9 {
-				e := n.blocks[n.best[9]]
-				fmt.Printf("  h9 id=%s hstate.ts=%v\n  state.ts=%v\n", short(e.id), e.hstate.PrevTimestamps, e.state.PrevTimestamps)
+			fmt.Printf("  skew=%v held=%d orphans=%d crashed=%v work=%v\n", n.skew, n.held, len(n.orphans), n.crashed, n.tip.TotalWork)
+			for id, e := range n.blocks { if e.invalid { fmt.Printf("  invalid %s h=%d applied=%v\n", short(id), e.height, e.applied) } }
+		}
+	}
+	debugKeep = 100000
+	r := Run(sim.NewTape(seed, run), os.Getenv("DBG_PROFILE"), "quick")
+	fmt.Println(r.HarnessErr, r.Violations)
+	if f := os.Getenv("DBG_GREP"); f != "" {
+		n := 0
+		for _, l := range debugLines {
+			if strings.Contains(l, f) {
+				n++
+			}
+		}
+		k := 0
+		for _, l := range debugLines {
+			if strings.Contains(l, f) {
+				k++
+				if k > n-40 {
+					fmt.Println(l)
+				}
 			}
 		}
 	}
-	r := Run(sim.NewTape(seed, run), os.Getenv("DBG_PROFILE"), "quick")
-	fmt.Println(r.HarnessErr, r.Violations)
 }
